@@ -18,7 +18,7 @@ from ..engine import pattern as P
 from ..engine.facts import dotted, const, src, walk_func, str_value
 from ..engine.facts import ancestors as facts_ancestors
 from . import skeletons as sk
-from .common import pn, access_paths, assigned_from
+from .common import pn, access_paths, assigned_from, resolve
 from .c13 import check_skeleton, loop_construct_traces, _T
 from . import c01  # text-stops-cover is registered for C03 there
 
@@ -48,6 +48,8 @@ def keyword_tables(ctx):
     ctx.require(cases, "ControlLine.is_ternary table not found")
     tbl = {}
     for k, v in zip(cases[0].keys, cases[0].values):
+        if isinstance(v, ast.Call) and dotted(v.func) in ("frozenset", "set") and len(v.args) == 1:
+            v = v.args[0]
         tbl[const(k)] = {const(e) for e in v.elts} if isinstance(v, (ast.Set, ast.List, ast.Tuple)) else set()
     for k, v in TERNARY.items():
         ctx.check(v <= tbl.get(k, set()), "parsetree.ternary:" + k, db.where(cases[0]), "ternary keywords of %r are %s, need %s" % (k, sorted(tbl.get(k, ())), sorted(v)), "%s: %s" % (k, sorted(tbl.get(k, ()))))
@@ -77,7 +79,12 @@ def keyword_tables(ctx):
     # lexer: end keyword must match the open one; ternaries validated
     lx = db.func("lexer.Lexer.match_control_line")
     t = src(lx)
-    ctx.check(P.has(lx, "self.control_line[-1].keyword != $k") and (P.has(lx, "not len(self.control_line)") or P.has(lx, "not self.control_line")), "lexer.end-match", db.where(lx), "an `end<kw>` line is not checked against the open control keyword", "end keyword checked against the innermost open control line")
+    okm = P.has(lx, "self.control_line[-1].keyword != $k")
+    if not okm:
+        for c_ in walk_func(lx):
+            if isinstance(c_, ast.Compare) and len(c_.ops) == 1 and isinstance(c_.ops[0], ast.NotEq) and any(P.matches(resolve(lx, x_), "self.control_line[-1].keyword") for x_ in (c_.left, c_.comparators[0])):
+                okm = True
+    ctx.check(okm and (P.has(lx, "not len(self.control_line)") or P.has(lx, "not self.control_line")), "lexer.end-match", db.where(lx), "an `end<kw>` line is not checked against the open control keyword", "end keyword checked against the innermost open control line")
     an = db.func("lexer.Lexer.append_node")
     t = src(an)
     ctx.check(P.has(an, "self.control_line[-1].is_ternary($n.keyword)") and any("SyntaxException" in n_ for n_, _ in __import__("verif.rules.common", fromlist=["x"]).raise_names(an)), "lexer.ternary-check", db.where(an), "illegal ternary keywords are not rejected", "ternary keywords validated against the open primary")
